@@ -8,6 +8,7 @@ import (
 	"github.com/gr33nbl00d/caddy-revocation-validator/core"
 	"github.com/gr33nbl00d/caddy-revocation-validator/core/asn1parser"
 	"github.com/gr33nbl00d/caddy-revocation-validator/core/utils"
+	"github.com/gr33nbl00d/caddy-revocation-validator/core/verifhook"
 	"github.com/gr33nbl00d/caddy-revocation-validator/crl/crlloader"
 	"github.com/gr33nbl00d/caddy-revocation-validator/crl/crlreader"
 	"github.com/gr33nbl00d/caddy-revocation-validator/crl/crlstore"
@@ -189,6 +190,7 @@ func (R *Repository) loadCRL(entry *Entry, chains *core.CertificateChains) (err 
 	}
 	if R.crlConfig.SignatureValidationModeParsed != config.SignatureValidationModeNone {
 		signatureCert, verifyErr := verifyCRLSignature(result, chains)
+		verifhook.Hit("repo.load.sig-checked")
 		if verifyErr != nil {
 			R.logger.Warn("could not validate signature of crl", zap.String("crl", entry.CRLLoader.GetDescription()))
 			if R.crlConfig.SignatureValidationModeParsed == config.SignatureValidationModeVerify {
@@ -202,10 +204,12 @@ func (R *Repository) loadCRL(entry *Entry, chains *core.CertificateChains) (err 
 			}
 		}
 	}
+	verifhook.Hit("repo.load.before-swap")
 	err = entry.CRLStore.Update(store)
 	if err != nil {
 		return err
 	}
+	verifhook.Hit("repo.load.after-swap")
 	R.logger.Debug("crl loaded successfully", zap.String("crl", entry.CRLLoader.GetDescription()))
 	entry.Loaded = true
 	entry.Chains = nil
@@ -391,6 +395,7 @@ func (R *Repository) updateCrlEntry(entry *Entry, newChains *core.CertificateCha
 	if R.crlConfig.SignatureValidationModeParsed != config.SignatureValidationModeNone {
 		R.logger.Info("verify crl signature of crl " + entry.CRLLoader.GetDescription())
 		signatureCert, verifyErr := verifyCRLSignature(result, chains)
+		verifhook.Hit("repo.refresh.sig-checked")
 		if verifyErr != nil {
 			R.setLastSignatureVerifyFailed(entry, result)
 			R.logger.Warn("could not validate signature of crl", zap.String("crl", entry.CRLLoader.GetDescription()))
@@ -406,11 +411,13 @@ func (R *Repository) updateCrlEntry(entry *Entry, newChains *core.CertificateCha
 		}
 	}
 
+	verifhook.Hit("repo.refresh.before-swap")
 	err = R.updateEntry(entry, err, store)
 	if err != nil {
 		R.deleteEntrySync(identifier)
 		return err
 	}
+	verifhook.Hit("repo.refresh.after-swap")
 	R.logger.Info("finished updating crl " + entry.CRLLoader.GetDescription())
 	return nil
 }
